@@ -319,8 +319,7 @@ pub fn run(ctx: &Ctx) {
          every <=k-cut set for longer ones, uniform piece sizes; sources: buffered (read_event_into over a scripted BufRead) \
          and async (read_event_into_async over a scripted AsyncBufRead polled by hand), the latter also with every \
          placement of up to k Poll::Pending answers. Oracle: the trace of the borrowing reader (events, errors, \
-         buffer_position and error_position after every call, two extra calls after Eof), under the neutral and the \
-         default configuration. non-trivial = some cut falls strictly inside a markup construct (spans from the \
+         buffer_position and error_position after every call, two extra calls after Eof), under four configurations (neutral, default, all switches on, neutral + text trimming). non-trivial = some cut falls strictly inside a markup construct (spans from the \
          reference lexer); counted per (input, schedule), distinct by construction. states = distinct (event-kind \
          sequence, refill count) signatures",
     );
@@ -328,7 +327,8 @@ pub fn run(ctx: &Ctx) {
     ctx.assume("empty pieces are never produced (an empty fill_buf means EOF by contract)");
     let t = ctx.tier;
     let full = cfg!(feature = "full");
-    let cfgs = [NEUTRAL, DEFAULT];
+    // neutral, default, everything on, and text trimming alone (skip_whitespace lives in the source)
+    let cfgs = [NEUTRAL, DEFAULT, 127u8, NEUTRAL | TRIM_START | TRIM_END];
     let b = Bounds { all_cuts_len: t.pick(8, 11), max_cuts: t.pick(2, 3), pend_bound: t.pick(1, 2) };
     if !full {
         // Init step differs between builds (remove_utf8_bom vs detect_encoding)
